@@ -1216,6 +1216,44 @@ def expand_aliases(fn: ast.FunctionDef) -> ast.FunctionDef:
     return new
 
 
+FOLD_NAMED_INTS = True
+_INT_CONSTS: Dict[Tuple[int, str], Dict[str, int]] = {}
+
+
+def _module_int_constants(repo: Repo, sf: SourceFile) -> Dict[str, int]:
+    """UPPER_CASE module-level names (own or imported from the package) bound once to an expression that folds to an int."""
+    key = (id(repo), sf.rel)
+    if key in _INT_CONSTS:
+        return _INT_CONSTS[key]
+    out: Dict[str, int] = {}
+    names: Set[str] = set()
+    counts: Dict[str, int] = {}
+    for n in sf.tree.body:
+        if isinstance(n, ast.Assign):
+            for t in n.targets:
+                if isinstance(t, ast.Name):
+                    counts[t.id] = counts.get(t.id, 0) + 1
+                    names.add(t.id)
+        elif isinstance(n, ast.AnnAssign) and isinstance(n.target, ast.Name):
+            counts[n.target.id] = counts.get(n.target.id, 0) + 1
+            names.add(n.target.id)
+    for nm, imp in sf.imports.items():
+        if imp[1] and imp[0] in repo.by_mod:
+            names.add(nm)
+    globals_written = {g for f in ast.walk(sf.tree) if isinstance(f, ast.Global) for g in f.names}
+    for nm in names:
+        if nm.upper() != nm or not any(c.isalpha() for c in nm) or counts.get(nm, 1) != 1 or nm in globals_written:
+            continue
+        try:
+            v = repo.fold(ast.Name(id=nm, ctx=ast.Load()), sf=sf)
+        except Exception:
+            continue
+        if isinstance(v, int) and not isinstance(v, bool):
+            out[nm] = v
+    _INT_CONSTS[key] = out
+    return out
+
+
 def normalize(repo: Repo, ci: Optional[ClassInfo], fn: ast.FunctionDef, sf: Optional[SourceFile] = None, aliases: bool = False, **kw) -> ast.FunctionDef:
     """flatten, then unroll (and, on request, expand attribute-chain aliases): the form in which rules read a function."""
     out = unroll(_flatten_only(repo, ci, fn, sf, **kw), repo, ci, sf)
@@ -1233,6 +1271,20 @@ def normalize(repo: Repo, ci: Optional[ClassInfo], fn: ast.FunctionDef, sf: Opti
             changed = True
         if changed:
             out = unroll(out, repo, ci, sf)      # `fields = self._FIELDS; for f in fields` now iterates the constant itself
+    if any(isinstance(n, ast.With) for n in ast.walk(out)) and any(isinstance(n, ast.Call) and norm(n.func).split(".")[-1] == "suppress" for n in ast.walk(out)):
+        out = desugar_suppress(out)
+    # named integer constants of the module (`_NOTE_SIZE = 8`, `CHUNK_HEADER_SIZE = 8`) read as their values
+    the_sf = sf or (ci.file if ci is not None else None)
+    if the_sf is not None and FOLD_NAMED_INTS:
+        consts = _module_int_constants(repo, the_sf)
+        if consts and any(isinstance(n, ast.Name) and n.id in consts for n in ast.walk(out)):
+            bound = {a.arg for a in out.args.args + out.args.kwonlyargs} | \
+                {n.id for n in ast.walk(out) if isinstance(n, ast.Name) and isinstance(n.ctx, (ast.Store, ast.Del))}
+            env = {k: ast.Constant(value=v) for k, v in consts.items() if k not in bound}
+            if env:
+                out = _Rename(env).visit(out)
+                ast.fix_missing_locations(out)
+                number(out)
     if any(isinstance(n, ast.Assign) and len(n.targets) == 1 and isinstance(n.targets[0], (ast.Tuple, ast.List))
            and (isinstance(n.value, (ast.Tuple, ast.List)) or (isinstance(n.value, ast.Call) and norm(n.value.func) == "divmod"))
            for n in ast.walk(out)):
@@ -1689,7 +1741,7 @@ def split_tuple_assigns(fn: ast.FunctionDef) -> ast.FunctionDef:
     return new
 
 
-def fold_module_names(repo: Repo, sf: SourceFile, fn: ast.FunctionDef, ci: Optional[ClassInfo] = None) -> ast.FunctionDef:
+def fold_module_names(repo: Repo, sf: SourceFile, fn: ast.FunctionDef, ci: Optional[ClassInfo] = None, kinds=(int, str, bytes)) -> ast.FunctionDef:
     """Free names (and `self.X` / `Class.X` class constants) that fold to an int / str / bytes constant are written as that constant."""
     new = copy.deepcopy(fn)
     bound = {a.arg for a in new.args.args + new.args.kwonlyargs} | {n.id for n in ast.walk(new) if isinstance(n, ast.Name) and isinstance(n.ctx, (ast.Store, ast.Del))}
@@ -1699,7 +1751,7 @@ def fold_module_names(repo: Repo, sf: SourceFile, fn: ast.FunctionDef, ci: Optio
             if isinstance(node.ctx, ast.Load) and node.id not in bound:
                 try:
                     v = repo.fold(node, ci=ci, sf=sf)
-                    if isinstance(v, (int, str, bytes)) and not isinstance(v, bool):
+                    if isinstance(v, kinds) and not isinstance(v, bool):
                         return ast.copy_location(ast.Constant(value=v), node)
                 except Exception:
                     pass
@@ -1710,12 +1762,31 @@ def fold_module_names(repo: Repo, sf: SourceFile, fn: ast.FunctionDef, ci: Optio
             if isinstance(node.ctx, ast.Load) and isinstance(node.value, ast.Name) and ci is not None:
                 try:
                     v = repo.fold(node, ci=ci, sf=sf)
-                    if isinstance(v, (int, str, bytes)) and not isinstance(v, bool):
+                    if isinstance(v, kinds) and not isinstance(v, bool) and node.attr.upper() == node.attr:
                         return ast.copy_location(ast.Constant(value=v), node)
                 except Exception:
                     pass
             return node
     new = K().visit(new)
+    ast.fix_missing_locations(new)
+    number(new)
+    return new
+
+
+def desugar_suppress(fn: ast.FunctionDef) -> ast.FunctionDef:
+    """`with suppress(E): BODY` (contextlib) reads as `try: BODY` / `except E: pass`."""
+    class X(ast.NodeTransformer):
+        def visit_With(self, node):
+            node = self.generic_visit(node)
+            if len(node.items) == 1 and node.items[0].optional_vars is None and isinstance(node.items[0].context_expr, ast.Call) \
+                    and norm(node.items[0].context_expr.func).split(".")[-1] == "suppress" and node.items[0].context_expr.args:
+                excs = node.items[0].context_expr.args
+                typ = excs[0] if len(excs) == 1 else ast.Tuple(elts=list(excs), ctx=ast.Load())
+                h = ast.ExceptHandler(type=typ, name=None, body=[ast.Pass()])
+                return ast.copy_location(ast.Try(body=node.body, handlers=[h], orelse=[], finalbody=[]), node)
+            return node
+    new = copy.deepcopy(fn)
+    X().visit(new)
     ast.fix_missing_locations(new)
     number(new)
     return new
